@@ -98,10 +98,11 @@ func init() {
 				r.abort("infeasible", "assumption false")
 			}
 		case sym:
-			if r.check(c.t) == smt.Unsat {
-				r.abort("infeasible", "assumption infeasible")
-			}
+			// asserted without an immediate feasibility query; the path condition is
+			// checked once at the end of the path and an infeasible path is discarded
+			// together with everything "discharged" on it
 			r.assertPC(c.t)
+			r.lazyAssumes++
 		}
 		return nil
 	}
